@@ -144,12 +144,12 @@ for h in range(n):
     outs = dbimpl.run_history(tf, csv, auto, ops, os.path.join(work, f"{tz.replace('/', '_')}_{h}"))
     cases.append([csv, auto, strip(ops), keep(outs)])
 # plus ordinary histories (their datetimes are already handed in through several zones)
-for h in range(max(n // 2, 40)):
+for h in range(max(n // 2, 44)):
     csv, auto = [(False, True), (True, True), (True, False), (False, False)][h % 4]
     prof = {"p_write": 0.5, "p_scenario": 0.5, "scenario_pref": ['noop_match', 'minute_marks', 'minute_marks', "fold_twins", "redate", "zones", "ooo_batch", "fold_twins", "big_ties", "future_untimed", "epoch", "range_ends", "noop_compose"]}
-    if h < 40:
+    if h < 44:
         # every time-centred scenario once in every configuration
-        prof.update(p_scenario=1.0, scenario_force=["big_ties", "fold_twins", "redate", "zones", "future_untimed", "epoch", "range_ends", "noop_compose", "noop_match", "minute_marks"][(h // 4) % 10])
+        prof.update(p_scenario=1.0, scenario_force=["big_ties", "fold_twins", "redate", "zones", "future_untimed", "epoch", "range_ends", "noop_compose", "noop_match", "minute_marks", "front_rows_removed"][(h // 4) % 11])
     g = dbgen.Gen((seed << 20) + 7777 + h, prof)
     ops = g.history(csv)
     outs = dbimpl.run_history(tf, csv, auto, ops, os.path.join(work, f"{tz.replace('/', '_')}_r{h}"))
